@@ -18,7 +18,7 @@ Judge(e) ==
     LET dpk == DecodePK(e.pkb, P)
         dsk == DecodeSK(e.skb, P)
         h == IF dpk.ok THEN dpk.h ELSE [i \in 1..P.n |-> 0]
-        facts == KeyFacts(e.f, e.g, e.F, e.G, h, e.leaves, P)
+        facts == KeyFactsT(e.f, e.g, e.F, e.G, h, e.leaves, e.tree_shape, e.leaf_second_zero, P)
         codec == [sk_bytes |-> EncodeSK(e.f, e.g, e.F, P) = e.skb,
                   sk_len |-> Len(e.skb) = P.sklen, pk_len |-> Len(e.pkb) = P.pklen,
                   pk_decodes |-> dpk.ok,
